@@ -26,6 +26,10 @@ PROPS = {
                 level="exploration", faults=True, batch=10),
     "C01": dict(engine="store", gen="gen_c01", nops=(2, 7), runs={"quick": 800, "thorough": 16000},
                 level="exploration", faults=True, batch=10),
+    "C13": dict(engine="store", special="c13", nops=(1, 1), runs={"quick": 96, "thorough": 1600},
+                level="fault_enumeration", batch=2, timeout=900),
+    "C02": dict(engine="store", gen="gen_c02", nops=(3, 9), runs={"quick": 560, "thorough": 10000},
+                level="exploration", faults=True, batch=8),
     "C06": dict(engine="store", gen="gen_c06", nops=(2, 6), runs={"quick": 480, "thorough": 9000},
                 level="exploration", batch=8),
     "C07": dict(engine="store", gen="gen_c07", nops=(3, 9), runs={"quick": 480, "thorough": 9000},
@@ -98,6 +102,9 @@ def execute_store(spec, scratch, t0):
             run.run(spec["ops"])
         elif spec.get("directed"):
             run.run(spec["directed"]["ops"])
+        elif cfg.get("special") == "c13":
+            from . import c13
+            c13.run(run, rng, cfg, spec["tier"])
         else:
             gen_next = getattr(histories, cfg["gen"])
             run.run_online(rng, gen_next, swarm["nops"], cfg)
@@ -134,7 +141,9 @@ def nontrivial(prop, run):
     if prop == "C01":
         return st.get("op:create", 0) > 0
     if prop == "C06":
-        return st.get("op:create", 0) > 0
+        return st.get("op:create", 0) + st.get("op:cliload", 0) > 0
+    if prop == "C02":
+        return st.get("struct-checked", 0) > 0
     if prop == "C07":
         return st.get("op:merge", 0) > 0
     if prop == "C08":
